@@ -94,7 +94,7 @@ Record yfam (r : raw) : Prop := mk_yfam {
 Lemma yearly_pass_full : forall r rl k month ii ts out,
   normalize r = Ok rl -> yfam r ->
   let y := r_y r + k * r_interval r in
-  2 <= y <= 9999 -> rebuild rl ii_init y month = Ok ii -> timeset rl = Some ts ->
+  1 <= y <= 9999 -> rebuild rl ii_init y month = Ok ii -> timeset rl = Some ts ->
   exists ds ds' f out',
     getdayset rl ii y month 1 = Ok (ds, 0, year_len y) /\
     filter_loop rl ii (py_slice ds 0 (year_len y)) ds false = Ok (ds', f) /\
@@ -125,7 +125,7 @@ Definition at_pass (r : raw) (rl : rule) (ts : list Z) (k : Z) (s : state) : Pro
 
 Lemma yearly_step : forall r rl ts k s,
   normalize r = Ok rl -> yfam r -> timeset rl = Some ts -> at_pass r rl ts k s ->
-  2 <= r_y r + k * r_interval r -> r_y r + (k + 1) * r_interval r <= 9999 ->
+  1 <= r_y r + k * r_interval r -> r_y r + (k + 1) * r_interval r <= 9999 ->
   exists s' acc',
     step rl s = inl s' /\ at_pass r rl ts (k + 1) s' /\
     sp_take r (step_items r k) None (c_out s) = (acc', None, false) /\ c_out s' = acc'.
@@ -145,14 +145,14 @@ Proof.
     unfold between in *. lia. }
   destruct Hitv as [Hitv Hwk].
   set (y := r_y r + k * r_interval r) in *.
-  assert (Hy : 2 <= y <= 9999) by nia.
+  assert (Hy : 1 <= y <= 9999) by nia.
   rewrite Ay, Am in Ar.
   destruct (yearly_pass_full r rl k (r_m r) (c_ii s) ts (c_out s) HN Y Hy Ar HT)
     as (ds & ds' & f & out' & E1 & E2 & E3 & E4).
   fold y in E1, E2, E3.
   (* the next iterinfo *)
   set (y2 := y + interval rl).
-  assert (Hy2 : 2 <= y2 <= 9999).
+  assert (Hy2 : 1 <= y2 <= 9999).
   { unfold y2. rewrite Ni. replace (r_y r + (k + 1) * r_interval r) with (y + r_interval r) in Hhi by (unfold y; ring). lia. }
   destruct (rebuild_succeeds rl y2 (r_m r) Hy2 ltac:(rewrite Nwk; exact Hwk) TN (or_introl TE)) as (ii2 & R2).
   destruct (rebuild_slots rl y (r_m r) (c_ii s) ltac:(lia) Ar) as (LY & EM).
@@ -187,7 +187,7 @@ Qed.
 (* the induction over passes *)
 Lemma yearly_run_is_spec : forall r rl ts limit n k s,
   normalize r = Ok rl -> yfam r -> timeset rl = Some ts -> at_pass r rl ts k s -> 0 <= k ->
-  2 <= r_y r -> r_y r + (k + Z.of_nat n) * r_interval r <= 9999 ->
+  1 <= r_y r -> r_y r + (k + Z.of_nat n) * r_interval r <= 9999 ->
   fst (run rl limit n s) = fst (spec_loop r limit n k None (c_out s)).
 Proof.
   intros r rl ts limit n. induction n as [|n IH]; intros k s HN Y HT A Hk Hlo Hhi; cbn [run spec_loop].
@@ -198,7 +198,7 @@ Proof.
     { unfold spec_wf in HW.
       repeat match type of HW with _ && _ = true =>
         let H := fresh "W" in apply andb_true_iff in HW; destruct HW as [HW H] end. lia. }
-    assert (Hyk : 2 <= r_y r + k * r_interval r) by nia.
+    assert (Hyk : 1 <= r_y r + k * r_interval r) by nia.
     assert (Hyk1 : r_y r + (k + 1) * r_interval r <= 9999) by nia.
     destruct (yearly_step r rl ts k s HN Y HT A Hyk Hyk1) as (s' & acc' & ES & A' & ET & EO).
     rewrite ES.
@@ -220,7 +220,7 @@ Qed.
 (* rrule_iter_correct for the family: same instants, same order, for every number of passes that
    stays within year 9999 and every limit *)
 Theorem yearly_iter_correct : forall r rl limit n,
-  normalize r = Ok rl -> yfam r -> 2 <= r_y r -> r_y r + Z.of_nat n * r_interval r <= 9999 ->
+  normalize r = Ok rl -> yfam r -> 1 <= r_y r -> r_y r + Z.of_nat n * r_interval r <= 9999 ->
   fst (iterate rl limit n) = fst (spec_iter r limit n).
 Proof.
   intros r rl limit n HN Y Hlo Hhi.
@@ -237,11 +237,12 @@ Proof.
       let H := fresh "W" in apply andb_true_iff in HW; destruct HW as [HW H] end.
     unfold between in *. lia. }
   destruct Hwf as [Hitv Hwk].
-  assert (Hy0 : 2 <= r_y r <= 9999) by nia.
+  assert (Hy0 : 1 <= r_y r <= 9999) by nia.
   destruct (rebuild_succeeds rl (r_y r) (r_m r) Hy0 ltac:(rewrite Nwk; exact Hwk) TN (or_introl TE)) as (ii0 & R0).
   pose proof (timeset_is_spec r rl HN HW ltac:(rewrite Hfr; reflexivity)) as HT.
-  unfold iterate, init_state. rewrite Ny, Nm, Nd, R0. cbn [bind].
-  rewrite Nfr. change (YEARLY <? HOURLY) with true. cbv iota. rewrite HT. cbn [bind]. rewrite Nc, Hc.
+  unfold iterate, init_state. rewrite Nfr. change (YEARLY =? WEEKLY) with false. cbn [andb]. cbv iota.
+  rewrite Ny, Nm, Nd, R0. cbn [bind].
+  change (YEARLY <? HOURLY) with true. cbv iota. rewrite HT. cbn [bind]. rewrite Nc, Hc.
   unfold spec_iter. rewrite Hc.
   set (s0 := mkSt _ _ _ _ _ _ _ _ _ _ _).
   assert (A0 : at_pass r rl (period_times r 0) 0 s0).
